@@ -67,9 +67,12 @@ def shrink_plan(check, plan, cls, max_exec=300, max_s=30.0):
                     n = min(len(seq), n * 2)
                 elif len(seq) == 0:
                     break
-        for cand in check.simplify(best):
-            if fails(cand):
-                best = cand
-                changed = True
-                break
+        progress = True
+        while progress and tries[0] < max_exec and time.time() - t0 <= max_s:
+            progress = False
+            for cand in check.simplify(best):
+                if fails(cand):
+                    best = cand
+                    changed = progress = True
+                    break
     return best, tries[0]
